@@ -313,7 +313,7 @@ func runOp(c any, ctxs map[string]context.Context, op Op) (res Result) {
 	case "istagged":
 		return Result{V: Describe(api.IsTaggedBy(op.Name, op.Tag), c)}
 	case "counters":
-		return Result{C: Counters()}
+		return Result{C: Counters(), V: Node{"t": "counters"}}
 	case "state":
 		return Result{V: dumpState(api, ctxs)}
 	case "getter", "getterctx", "mustgetter", "mustgetterctx":
